@@ -15,7 +15,9 @@
 //     completeness is no longer demanded for a;
 //   - gone(a): a removal was acknowledged (nil) while every shard was
 //     read-write, healthy and every holder indexed: a must never be read again
-//     (until a new acknowledged Put, impossible after a tombstone).
+//     (until a new acknowledged Put, impossible after a tombstone). Not
+//     asserted while a shard that still holds the blob runs WITHOUT metabase
+//     (it cannot know about the removal; collection is pending).
 //
 // Soundness: every successful read returns the stored bytes and a is not gone.
 // Completeness: not attempted(a) and some holder is readable (no injected read
@@ -271,8 +273,13 @@ func (s *state) exec(t *rapid.T, i int, o op) {
 			if len(after) == 0 {
 				s.failf(t, "%s: Put returned nil but no shard holds the object", step)
 			}
-			if g := s.gone[o.ID]; g == "drop" || g == "mark" {
-				// a new acknowledged upload after a completed drop / collected mark
+			if g := s.gone[o.ID]; g != "" && len(after) > len(before) {
+				// a new upload was acknowledged AND stored: the object is "stored" again
+				// (whether a Put after a tombstone may be accepted – here only when the
+				// shards knowing the tombstone have no metabase – is not C20's subject)
+				if g == "tomb" {
+					s.labels["put-stored-after-tombstone(tombstone-knowers-degraded)"] = true
+				}
 				delete(s.gone, o.ID)
 			}
 		}
@@ -411,7 +418,15 @@ func (s *state) checkReads(t *rapid.T, step string) {
 				if !r.ok {
 					s.failf(t, "read returned wrong bytes: %s", desc)
 				}
-				if g := s.gone[id]; g != "" {
+				holderNoMeta := false
+				for _, h := range holders {
+					holderNoMeta = holderNoMeta || s.e.Mode(h).NoMetabase()
+				}
+				if g := s.gone[id]; g != "" && holderNoMeta {
+					// the shard still holding the blob runs without its metabase and
+					// cannot know about the removal (operator-level emergency mode)
+					s.labels["removed-object-read-from-degraded-holder(not-asserted)"] = true
+				} else if g != "" {
 					fp := ""
 					if g == "mark" && len(holders) > 0 {
 						fp = fpMarked
